@@ -3,7 +3,20 @@
 cd "$(dirname "$0")/.."
 for d in seeded/*/; do
   id=$(basename $d); pid=${id%-*}
+  case "$id" in ${ONLY:-*}) ;; *) continue;; esac
   echo "==== $id"
+  if ! git -C ${SEED_REPO:-/repo} apply --check $(pwd)/$d/patch.diff 2>/dev/null; then
+    echo "patch does not apply to the current tree: marked obsolete"
+    /venv/bin/python - "$d" <<'PY'
+import json, os, subprocess, sys
+d = sys.argv[1]
+meta = json.load(open(os.path.join(d, 'meta.json')))
+meta['obsolete'] = ('the code this change modified no longer exists in /repo (removed by a later fix: commit); results below were '
+                    'obtained on the tree the change was written for')
+json.dump(meta, open(os.path.join(d, 'meta.json'), 'w'), indent=1)
+PY
+    continue
+  fi
   /venv/bin/python tools/try_seed.py $(pwd)/$d/patch.diff --repo ${SEED_REPO:-/repo} --props $pid --tier quick --demo $(pwd)/$d/demo.py --json $(pwd)/$d/run.json 2>&1 | grep -v "^demo without" | cut -c1-260
   /venv/bin/python - "$d" "$pid" <<'PY'
 import json, os, sys
